@@ -62,13 +62,43 @@ func cmdCheck(args []string) int {
 
 	// which functions
 	var targets []string
+	var uncontractedVCs []*funcVC
 	if *prop != "" {
 		pd := eng.cs.Props[*prop]
 		if pd == nil {
 			fmt.Fprintf(os.Stderr, "govc: no roots declared for property %s\n", *prop)
 			return 2
 		}
-		targets = eng.closure(pd.Roots)
+		roots := append([]string{}, pd.Roots...)
+		var uncontracted []string
+		if len(pd.Callers) > 0 {
+			want := map[string]bool{}
+			for _, c := range pd.Callers {
+				want[c] = true
+			}
+			var names []string
+			for n := range eng.funcs {
+				names = append(names, n)
+			}
+			sort.Strings(names)
+			for _, n := range names {
+				fn := eng.funcs[n]
+				if want[n] || !callsAny(fn, want) {
+					continue
+				}
+				if ct := eng.cs.ByTarget[n]; ct == nil {
+					uncontracted = append(uncontracted, n)
+				} else {
+					roots = append(roots, n)
+				}
+			}
+		}
+		targets = eng.closure(roots)
+		for _, n := range uncontracted {
+			sn := eng.shortName(n)
+			fmt.Printf("UNBOUND %s: calls a function guarded by property %s but has no contract\n", sn, *prop)
+			uncontractedVCs = append(uncontractedVCs, &funcVC{Name: sn, Items: []Item{{Kind: itOblig, Ob: &Oblig{Name: sn + "/binding#0", Kind: "binding", Guard: "true", Formula: "false", Desc: "calls a function that property " + *prop + " requires every caller of to be under contract, but has no contract", Fn: sn}}}})
+		}
 	} else {
 		for _, n := range eng.cs.Order {
 			c := eng.cs.ByTarget[n]
@@ -82,6 +112,7 @@ func cmdCheck(args []string) int {
 		re = regexp.MustCompile(*fnre)
 	}
 	var fvs []*funcVC
+	fvs = append(fvs, uncontractedVCs...)
 	nerr := 0
 	nunbound := 0
 	var under []string
@@ -176,6 +207,34 @@ func envOr(k, d string) string {
 }
 
 // closure: roots plus every contracted, non-trusted callee reachable from them.
+// callsAny: does fn (or a closure defined in it) statically call one of the named functions?
+func callsAny(fn *ssa.Function, want map[string]bool) bool {
+	for _, b := range fn.Blocks {
+		for _, ins := range b.Instrs {
+			var cc *ssa.CallCommon
+			switch x := ins.(type) {
+			case *ssa.Call:
+				cc = &x.Call
+			case *ssa.Defer:
+				cc = &x.Call
+			case *ssa.Go:
+				cc = &x.Call
+			}
+			if cc != nil {
+				if f := cc.StaticCallee(); f != nil && want[f.String()] {
+					return true
+				}
+			}
+		}
+	}
+	for _, af := range fn.AnonFuncs {
+		if callsAny(af, want) {
+			return true
+		}
+	}
+	return false
+}
+
 func (e *Engine) closure(roots []string) []string {
 	seen := map[string]bool{}
 	var out []string
